@@ -23,7 +23,8 @@ Definition show_st (s : st Z Z) : list Z :=
   [holder_next s; cp_next s; b2z (awaiting_rr s); b2z (disconnected s); b2z (mon_in_progress s);
    b2z (mp_raa s); b2z (mp_cs s); b2z (raa_first s); b2z (closed s);
    b2z (chan_ready (hsk s)); b2z (our_ready (hsk s)); b2z (their_ready (hsk s)); b2z (wfb (hsk s));
-   opz (cp_cur_point s); opz (cp_next_point s)].
+   opz (cp_cur_point s); opz (cp_next_point s);
+   b2z (stfu_sent (ext s)); b2z (quiescent (ext s)); opz (mon_signed (ext s))].
 Fixpoint run_show (s : st Z Z) (ops : list (op Z Z)) : list (list (list Z) * list Z) :=
   match ops with
   | [] => []
@@ -50,17 +51,16 @@ def zlit(z):
 def py_chk(events):
     """[chk] of Model/RevokeLog.v in Python. events: tuples (kind, k[, x]). None if accepted, else
     (position, reason)."""
-    vh, rv, st, ann, signed = INITIAL, INITIAL + 1, INITIAL + 1, set(), False
+    vh, rv, st, ann = INITIAL, INITIAL + 1, INITIAL + 1, set()
+    rel, sh = INITIAL + 1, None      # last released holder number; highest holder number signed for broadcast
     for pos, e in enumerate(events):
         kind, k = e[0], e[1]
         if kind == "sign_holder":
-            if k != vh:
-                return pos, "sign_holder(%d) is not the latest validated holder commitment (%d)%s" % (k, vh, ": it was revoked" if k > vh else "")
-            signed = True
-            continue
-        if signed:
-            return pos, "%s(%d) after a holder commitment was signed for broadcast" % (kind, k)
-        if kind == "validate_holder":
+            if not (vh <= k < rel):
+                return pos, "sign_holder_commitment(%d): %s (latest validated %d, last released %d)" % (
+                    k, "that commitment was revoked: its secret was released" if k >= rel else "no such commitment was ever validated", vh, rel)
+            sh = k if sh is None else max(sh, k)
+        elif kind == "validate_holder":
             if k != vh - 1:
                 return pos, "validate_holder(%d): holder commitment numbers must step by exactly one from %d" % (k, vh)
             if len(e) > 3 and e[2] != e[3]:
@@ -70,6 +70,9 @@ def py_chk(events):
             if not (k == vh + 1 and k <= INITIAL):
                 return pos, "release_commitment_secret(%d) while the latest fully signed holder commitment is %d: %s" % (
                     k, vh, "the state is revoked before a newer one is held" if k <= vh else "not the predecessor of the current state")
+            if sh is not None and not sh < k:
+                return pos, "release_commitment_secret(%d) after holder commitment %d was signed for broadcast: the node revokes a commitment it has signed and broadcast" % (k, sh)
+            rel = k
         elif kind == "sign_counterparty":
             if k != st - 2:
                 return pos, "sign_counterparty_commitment(%d) while the last revoked counterparty commitment is %d: %s" % (
@@ -111,7 +114,7 @@ def view_vec(v):
         return None
     return [v["hn"], v["cn"], int(v["aw"]), int(v["dc"]), int(v["mon"]), int(v["mpr"]), int(v["mpc"]), int(v["rf"]),
             int(v.get("ready", True)), int(v.get("ours", False)), int(v.get("theirs", False)), int(v.get("wfb", False)),
-            v.get("pc", None), v.get("pn", None)]
+            v.get("pc", None), v.get("pn", None), int(v.get("sl", False)), int(v.get("qu", False))]
 
 
 CS_COUNT_RE = None
@@ -165,6 +168,13 @@ class NodeTrace:
         self.signed_txids = set()
         self.reest_sent = []      # (step, nl, nr, view before)
         self.sc_signed = []       # (number, txid8, step, signed_on_reestablish_while_not_awaiting)
+        self.held = False         # the harness keeps this node's manager from processing monitor events
+        self.held_deliveries = 0
+        self.locked = False       # the monitor signed a holder commitment (any path) in an earlier step
+        self.cp_recorded = {INITIAL}   # counterparty commitment numbers handed to the monitor (its update stream)
+        self.unsolicited = []     # (step, number, kind): revocation stored without a newer commitment recorded
+        self.unrecorded_signs = []  # (step, number, act, t, prev_aw, prev_mpc)
+        self.inject_states = []   # (kind, receiver state label)
 
     def add_step(self, step, obs):
         n = self.n
@@ -183,12 +193,23 @@ class NodeTrace:
         gone_now = prev is not None and view is None
         ops = []
         mine = node == n
+        if mine and act == "process_events":
+            self.held = False
+        if mine and act == "deliver" and self.held:
+            self.held_deliveries += 1
         t = args.get("t") if act == "deliver" else None
         signs_holder = any(e[0] == "sign_holder" for e in sig)
         if prev is not None:
+            if act == "deliver" and mine and args.get("corrupt"):
+                c = args["corrupt"]
+                if c.startswith("raa_") or c == "cs_dup":
+                    lab = "+".join(x for x, on in (("awaiting", prev["aw"]), ("mon", prev["mon"]), ("stfu", prev.get("sl")),
+                                                     ("quiescent", prev.get("qu")), ("disconnected", prev["dc"]),
+                                                     ("held", self.held)) if on) or "idle"
+                    self.inject_states.append((c, lab))
             if act == "deliver" and mine and t == "cs":
                 sig_ok, nsig, nnd, htlc_ok = cs_params(args, obs, sig, gone_now)
-                if args.get("corrupt") == "cs_sig":
+                if args.get("corrupt") in ("cs_sig", "cs_dup"):
                     sig_ok = False
                 need = (not prev["aw"]) and view is not None and view["aw"]
                 sync = view is not None and not view["mon"]
@@ -210,6 +231,15 @@ class NodeTrace:
                     ops.append("OMonitorDone")
             elif act == "force_close" and mine:
                 ops.append("OForceClose")
+            elif act == "mon_broadcast" and mine:
+                # the user calls ChannelMonitor::broadcast_latest_holder_commitment_txn on the live channel's
+                # monitor; unless the harness holds the manager back, it learns of it in the same step
+                ops.append("OMonBroadcast")
+                if gone_now:
+                    ops.append("OProcessEvents")
+            elif act == "process_events" and mine:
+                if gone_now:
+                    ops.append("OProcessEvents")
             elif gone_now:
                 ops.append("OForceClose" if signs_holder else "OChainClose")
             # handshake progress made by the node itself (funding depth reached, batch completed); the
@@ -231,17 +261,38 @@ class NodeTrace:
             if not ops and view is not None and (not prev["mon"]) and view["mon"]:
                 # a monitor update that carries no commitment (e.g. a preimage while the claim sits in the holding cell)
                 ops.append("OMonUpdate F")
+            # the stfu handshake (its conditions depend on HTLC content): the flags as the node set them
+            if view is not None:
+                if not prev.get("sl") and view.get("sl"):
+                    ops.append("OStfuSent")
+                if not prev.get("qu") and view.get("qu"):
+                    ops.append("OQuiescent")
+                if prev.get("qu") and not view.get("qu") and act not in ("disconnect", "reload", "reload_stale"):
+                    ops.append("OExitQuiescence")
         # re-signing of the current holder commitment by the monitor after the close
         n_sh = sum(1 for e in sig if e[0] == "sign_holder")
-        closes_with_sign = 1 if (gone_now and n_sh > 0) else 0
+        if self.locked:
+            closes_with_sign = 0           # the funding claim exists: whatever is signed now is a re-signing
+        elif act == "mon_broadcast" and mine and prev is not None:
+            closes_with_sign = 1 if n_sh > 0 else 0
+        else:
+            closes_with_sign = 1 if (gone_now and n_sh > 0) else 0
+        if n_sh > 0:
+            self.locked = True
         for _ in range(n_sh - closes_with_sign):
             ops.append("OResign")
         self.groups.append({"step": step["i"], "act": act, "node": node, "args": args, "ops": ops,
                             "impl_events": [[EV_CODE[e[0]], e[1]] + list(e[2:]) for e in sig],
                             "impl_view": view_vec(view), "prev_view": view_vec(prev)})
+        # ---- the monitor's update stream: which counterparty commitments exist as far as the monitor knows
+        for mu in obs.get("mon", []) or []:
+            for num in mu.get("cp", []):
+                self.cp_recorded.add(num)
         # ---- implementation event list for the policy judge
         for l in log:
             kind, num = l[0], l[1]
+            if kind == "sign_counterparty" and num not in self.cp_recorded:
+                self.unrecorded_signs.append((step["i"], num, act, t, bool(prev and prev["aw"]), bool(prev and prev["mpc"]), args.get("corrupt")))
             if kind == "validate_holder" and len(l) >= 5:
                 self.events.append((kind, num, l[3], l[4]))
             elif kind in SIGNER_KINDS:
@@ -250,6 +301,8 @@ class NodeTrace:
                         and view is not None and view["cn"] == prev["cn"] - 1:
                     self.events.append(("store", num, args["secret"]))
                     self.events.append(("announce", num - 2, args["next_point"]))
+                    if (num - 1) not in self.cp_recorded:
+                        self.unsolicited.append((step["i"], num, args.get("corrupt")))
                     self.first_announced.setdefault(num - 2, args["next_point"])
             elif kind == "sign_holder_htlc":
                 self.htlc_signs.append((len(self.events), num))
@@ -290,6 +343,8 @@ class NodeTrace:
             if b.get("spends_funding") and b.get("seq0", 0) != 0xffffffff and b["txid"] not in self.signed_txids:
                 self.bcast_unsigned.append((step["i"], b["txid"]))
         self.view = view
+        if mine and act == "mon_broadcast" and args.get("hold"):
+            self.held = True
 
     def sec_class(self, args, step):
         sid = args.get("secret", -1)
@@ -365,6 +420,14 @@ def judge_node(tr):
                         "key_override": KNOWN_F1 if known else None})
         if num not in seen or not seen[num][0]:
             seen[num] = (txid, sti)
+    for (sti, num, kind) in tr.unsolicited[:1]:
+        out.append({"why": "a revoke_and_ack was accepted and its secret stored for counterparty commitment %d although no newer commitment (%d) was ever built and handed to the monitor: the counterparty commitment number advanced without an update (step %d, delivered message: %s)"
+                           % (num, num - 1, sti, kind or "as sent")})
+    for (sti, num, act, t, aw, mpc, corrupt) in tr.unrecorded_signs[:1]:
+        on_reest = act == "deliver" and t == "reest" and not aw
+        out.append({"why": "commitment_signed for counterparty commitment %d was signed although that commitment was never handed to the monitor (step %d, %s%s; awaiting_remote_revoke before: %s, commitment_signed pending a monitor update before: %s)"
+                           % (num, sti, act, "/" + str(t) if t else "", aw, mpc),
+                    "key_override": KNOWN_F1 if on_reest else None})
     for st, txid in tr.bcast_unsigned:
         out.append({"why": "a transaction spending the funding output was broadcast that was not signed through sign_holder_commitment (step %d, txid %s)" % (st, txid)})
     return out
@@ -450,7 +513,7 @@ def revoke_corr(ctx, model_ok, release=False):
             pos = len(tr.prelude)
             cur = (model[pos - 1][1] if pos else None)
             if cur is None:
-                cur = [INITIAL - 1, INITIAL - 1, 0, 0, 0, 0, 0, 0, 0, 0, 0, 0, int(tr.batch), -1, tr.p0]
+                cur = [INITIAL - 1, INITIAL - 1, 0, 0, 0, 0, 0, 0, 0, 0, 0, 0, int(tr.batch), -1, tr.p0, 0, 0, -1]
             bad = None
             for g in tr.groups:
                 evs = []
@@ -469,7 +532,7 @@ def revoke_corr(ctx, model_ok, release=False):
                 elif cur[8] == 1:
                     bad = {"what": "channel closed in the model, open in the implementation", "impl_view": g["impl_view"]}
                 elif not same_view(cur, g["impl_view"]):
-                    bad = {"what": "numbers/flags/points differ [holder_next, cp_next, awaiting_rr, disconnected, mon_in_progress, mp_raa, mp_cs, raa_first, (closed), chan_ready, our_ready, their_ready, wfb, cur_point, next_point]",
+                    bad = {"what": "numbers/flags/points differ [holder_next, cp_next, awaiting_rr, disconnected, mon_in_progress, mp_raa, mp_cs, raa_first, (closed), chan_ready, our_ready, their_ready, wfb, cur_point, next_point, stfu_sent, quiescent, (mon_signed)]",
                            "model": cur, "impl": g["impl_view"]}
                 if bad:
                     bad.update({"topic": "revoke-trace", "replay": rp, "node": tr.n, "step": g["step"], "act": g["act"], "acting_node": g["node"], "args": g["args"],
@@ -493,6 +556,13 @@ def revoke_corr(ctx, model_ok, release=False):
     ctx.coverage[pre + "revoke_completed_revocations"] = rounds
     ctx.coverage[pre + "revoke_model_ops"] = sum(len(g["ops"]) for _, _, tr in traces for g in tr.groups)
     ctx.coverage[pre + "revoke_distinct_nontrivial"] = len(distinct)
+    inj = {}
+    for _, _, tr in traces:
+        for c, lab in tr.inject_states:
+            inj["%s@%s" % (c, lab)] = inj.get("%s@%s" % (c, lab), 0) + 1
+    ctx.coverage[pre + "revoke_injected_messages_by_receiver_state"] = inj
+    ctx.coverage[pre + "revoke_deliveries_while_manager_held_back"] = sum(tr.held_deliveries for _, _, tr in traces)
+    ctx.coverage[pre + "revoke_monitor_api_broadcasts_on_live_channel"] = act_hist.get("mon_broadcast", 0)
     ctx.coverage[pre + "revoke_scenarios_closed"] = sum(1 for rec in recs if any(o["view"] is None for s in rec["steps"][-1:] for o in (s.get("obs") or [])))
     if traces:
         rp, rec, tr = traces[0]
